@@ -328,6 +328,68 @@ pub fn run(ctx: &Ctx, replay: Option<&J>) -> i32 {
         }
     }
 
+    // ---- aliased operands: the same heap object on both sides (or as corresponding elements) must
+    // give what two separately written copies give - in particular NaN inside it stays unequal to itself
+    {
+        let nan = RV::Num(f64::NAN);
+        let alias_pool: Vec<RV> = vec![
+            RV::List(vec![nan.clone()]),
+            RV::List(vec![RV::Num(1.0)]),
+            RV::List(vec![RV::List(vec![nan.clone()])]),
+            RV::List(vec![nan.clone(), RV::Num(1.0)]),
+            RV::List(vec![RV::s("a"), RV::Null]),
+            RV::Rec(vec![("v".into(), nan.clone())]),
+            RV::Rec(vec![("a".into(), RV::Num(1.0))]),
+            RV::Rec(vec![("l".into(), RV::List(vec![nan.clone()]))]),
+            RV::s("a"),
+            nan.clone(),
+            RV::Null,
+        ];
+        let to_exp = |e: Option<Option<String>>| match e {
+            Some(Some(c)) => Exp::Val(c),
+            Some(None) => Exp::Fail,
+            None => Exp::Any,
+        };
+        for e in &alias_pool {
+            let pre = format!("x = {}\n", e.src());
+            for (oi, (op, _)) in OPS.iter().enumerate() {
+                let whole = match e {
+                    RV::List(items) => mk_expected(oi, items, items),
+                    _ => to_exp(elem(oi, e, e)),
+                };
+                cases.push(Case { src: format!("{}x {} x", pre, op), kind: "aliased", expected: whole });
+                let l = vec![e.clone(), RV::Num(1.0)];
+                cases.push(Case { src: format!("{}[x, 1] {} [x, 1]", pre, op), kind: "aliased", expected: mk_expected(oi, &l, &l) });
+                let l3 = vec![e.clone(), e.clone(), e.clone()];
+                cases.push(Case { src: format!("{}[x, x, x] {} [x, x, x]", pre, op), kind: "aliased", expected: mk_expected(oi, &l3, &l3) });
+                if !e.is_list() {
+                    let l2 = vec![RV::Num(2.0), e.clone()];
+                    let ee = vec![e.clone(), e.clone()];
+                    cases.push(Case { src: format!("{}[2, x] {} x", pre, op), kind: "aliased", expected: mk_expected(oi, &l2, &ee) });
+                    cases.push(Case { src: format!("{}x {} [2, x]", pre, op), kind: "aliased", expected: mk_expected(oi, &ee, &l2) });
+                }
+            }
+            for op in DOT_OPS {
+                for (lhs, rv) in [("x".to_string(), e.clone()), ("[x]".to_string(), RV::List(vec![e.clone()])), ("{k: x}".to_string(), RV::Rec(vec![("k".into(), e.clone())]))] {
+                    let expected = match op {
+                        ".==" => Exp::Val(RV::Bool(rv.equals(&rv)).canon()),
+                        ".!=" => Exp::Val(RV::Bool(!rv.equals(&rv)).canon()),
+                        _ => match rv.compare(&rv) {
+                            None => Exp::Fail,
+                            Some(o) => Exp::Val(RV::Bool(match op {
+                                ".<" => o == Ordering::Less,
+                                ".<=" => o != Ordering::Greater,
+                                ".>" => o == Ordering::Greater,
+                                _ => o != Ordering::Less,
+                            }).canon()),
+                        },
+                    };
+                    cases.push(Case { src: format!("{}{} {} {}", pre, lhs, op, lhs), kind: "aliased-dot", expected });
+                }
+            }
+        }
+    }
+
     let outcomes = par_map(&cases, |c| eval_src(&c.src));
     for (c, out) in cases.iter().zip(outcomes.iter()) {
         ctx.count(1);
@@ -373,7 +435,7 @@ pub fn run(ctx: &Ctx, replay: Option<&J>) -> i32 {
     finish(
         ctx,
         "exploration",
-        "17 broadcasting operators x {scalar-scalar over pool^2; list-scalar and scalar-list for every list of length <= 2 over the pool and periodic extensions to 3..8; list-list for all equal-length pairs of those; every mismatched length pair 0..8} plus the six dot operators on lists; expected = independent scalar model applied element by element; distinct = distinct source expressions",
+        "17 broadcasting operators x {scalar-scalar over pool^2; list-scalar and scalar-list for every list of length <= 2 over the pool and periodic extensions to 3..8; list-list for all equal-length pairs of those; every mismatched length pair 0..8} plus the six dot operators on lists; every operator on aliased operands (one variable on both sides, as corresponding elements, as scalar and element) over 11 values incl. NaN-carrying lists and records; expected = independent scalar model applied element by element; distinct = distinct source expressions",
         true,
         None,
     )
